@@ -1,5 +1,6 @@
 import Driver.C11
 import Driver.C16
+import Driver.C08
 import Driver.C18
 import Driver.C09
 import Driver.C15
@@ -32,6 +33,7 @@ def dispatch (prop : String) (c obs : String) : String × String × Bool :=
   | "C09" => C09.run c obs
   | "C10" => C09.run10 c obs
   | "C18" => C18.run c obs
+  | "C08" => C08.run c obs
   | "C14" => C14.runSched c obs
   | "C14live" => C14.runLive c obs
   | "C16" => C16.runDiff c obs
